@@ -444,3 +444,52 @@ class MergeFn(Fn):
 
 def generate(rng, n):
     return [(MergeFn(rng, i) if i % 5 == 4 else Fn(rng, i)).build() for i in range(n)]
+
+
+# ------------------------------------------------------------------------------------------ abstract syntax -> Folang text
+CALLFMT = {"int+": "{0} + {1}", "str+": "{0} + {1}", "cmp": "{0} < {1}", "eq": "{0} = {1}", "{IR1}": "{{A={0}; B={1}}}", "{IR2}": "{{Name={0}; Vals={1}}}",
+           "{IBox}": "{{Val={0}; Tag={1}}}"}
+
+
+def render_ast(e):
+    """Folang text of an expression of FoInferGen's abstract syntax (every compound argument parenthesised)"""
+    k = e[0]
+    if k == "var":
+        return e[1]
+    if k == "lit":
+        return {"int": "1", "string": '"s"', "bool": "true"}[e[1]]
+    arg = lambda x: render_ast(x) if x[0] in ("var", "lit", "slice", "tuple") or (x[0] == "call" and x[1].startswith("{")) else "(" + render_ast(x) + ")"
+    if k == "call":
+        if e[1] in CALLFMT:
+            return CALLFMT[e[1]].format(*[arg(x) if not e[1].startswith("{") else render_ast(x) for x in e[2]])
+        return " ".join([e[1]] + [arg(x) for x in e[2]])
+    if k == "app":
+        return " ".join([e[1]] + [arg(x) for x in e[2]])
+    if k == "tuple":
+        return "(" + ", ".join(render_ast(x) for x in e[1]) + ")"
+    if k == "slice":
+        return "[" + "; ".join(render_ast(x) for x in e[1]) + "]"
+    if k == "lam":
+        return "fun %s -> %s" % (e[1], render_ast(e[2]))
+    raise ValueError(k)
+
+
+class AstFn:
+    """a function given as abstract syntax only (enumerated by TLC, spec/FoInferSmall.tla)"""
+
+    def __init__(self, ast):
+        self.ast = ast
+        self.name = ast["name"]
+        self.params = list(ast["params"])
+        self.body = []
+        for st in ast["stmts"]:
+            if st[0] == "let":
+                self.body.append("let %s = %s" % (st[1], render_ast(st[2])))
+            else:
+                self.body.append("let (%s) = %s" % (", ".join(st[1]), render_ast(st[2])))
+        self.body.append(render_ast(ast["fin"]))
+
+    def spec(self):
+        return {"name": self.name, "ast": self.ast}
+
+    text = Fn.text
